@@ -1,8 +1,11 @@
 """C09 — JSON serialization is lossless or loud, and policy-gated."""
 
+import base64
 import json
+import zlib
 
 import fiddle as fdl
+from fiddle._src.absl_flags import utils as flag_utils
 from fiddle.experimental import serialization
 from fiddle._src.experimental import serialization as _ser_impl
 from hypothesis import strategies as st
@@ -42,6 +45,7 @@ FLOORS = {'round_trip_ok': 0.402, 'bytes_backslash': 0.034, 'policy_doc': 0.07, 
 
 serialization.register_constant('harness.vuni.things', 'CONST_OBJ', compare_by_identity=True)
 serialization.register_dict_based_object(things.DictObj)
+serialization.register_dict_based_object(things.DictObjNew)
 
 
 @st.composite
@@ -61,6 +65,9 @@ def strategy_(draw, tier):
     case['mutation'] = draw(st.sampled_from(['none', 'canary_fn', 'canary_cls', 'os_system', 'type_swap',
                                              'builtins_eval']))
     case['sel'] = draw(st.integers(0, 30))
+    # through the flag serializer (zlib + base64 around the same JSON), optionally after the same
+    # payload was already decoded once under a policy that allows everything
+    case['via'] = draw(st.sampled_from(['load_json', 'load_json', 'zlib', 'zlib_warm', 'zlib_warm']))
   return case
 
 
@@ -275,19 +282,38 @@ def check_policy(case, out, root, doc):
     returned.append((pol, module, symbol, value, policy.import_calls[n_i:], policy.value_calls[n_v:]))
     return value
 
+  via = case.get('via', 'load_json')
+  out.cls('via_' + via)
+  payload = None
+  if via != 'load_json':
+    payload = base64.urlsafe_b64encode(zlib.compress(text.encode())).decode('ascii')
+    if via == 'zlib_warm':
+      try:
+        flag_utils.ZlibJSONSerializer().deserialize(payload, pyref_policy=RecordingPolicy('allow_all'))
+      except Exception:  # pylint: disable=broad-except
+        pass
   vuni.reset_log()
   del things.CANARY_CALLS[:]
   _ser_impl.import_symbol = spy
   try:
     try:
-      back = serialization.load_json(text, pyref_policy=policy)
+      if payload is None:
+        back = serialization.load_json(text, pyref_policy=policy)
+      else:
+        back = flag_utils.ZlibJSONSerializer().deserialize(payload, pyref_policy=policy)
       raised = None
+    except NameError:
+      raise   # a harness bug, never a verdict
     except Exception as e:  # pylint: disable=broad-except
       back, raised = None, e
   finally:
     _ser_impl.import_symbol = orig_import_symbol
   if not returned and raised is None:
-    out.add('harness-spy-not-engaged', 'harness', '', feat, 'import_symbol spy saw no call')
+    if via == 'zlib_warm':
+      # every document holds pyrefs: a decode that resolved nothing under *this* policy did not consult it
+      out.add('decode-returned-without-consulting-the-supplied-policy', 'policy', '', feat, '')
+    else:
+      out.add('harness-spy-not-engaged', 'harness', '', feat, 'import_symbol spy saw no call')
     return out
   if (things.CANARY_CALLS or vuni.LOG) and not mutated:
     out.add('load-invoked-callable', 'invoked', '', feat, str(things.CANARY_CALLS[:2]))
